@@ -258,6 +258,10 @@ type StorePolicy struct {
 	ACR        string `json:"acr,omitempty"`
 	// ErrStyle: how the storage reports its own refusals (see Store.refuse): "" plain error, "oidc", "wrapped", "server"
 	ErrStyle string `json:"err_style,omitempty"`
+	// EmptySecretOK: AuthorizeClientIDSecret compares the presented secret with the stored one as plain strings, so a client
+	// that holds no secret (private_key_jwt, public) "matches" an empty presented secret - as example/server/storage does.
+	// A caller that presents nothing has proved nothing: whether such a client is served is the library's decision.
+	EmptySecretOK bool `json:"empty_secret_ok,omitempty"`
 }
 
 // ---------------------------------------------------------------------------
@@ -791,6 +795,9 @@ func (s *Store) AuthorizeClientIDSecret(ctx context.Context, id, secret string) 
 	c, ok := s.Clients[id]
 	if !ok {
 		return s.refuse("client", "client not found")
+	}
+	if c.Secret == "" && secret == "" && s.Policy.EmptySecretOK {
+		return nil
 	}
 	if c.Secret == "" || c.Secret != secret {
 		return s.refuse("client", "invalid secret")
